@@ -829,8 +829,16 @@ let () =
                 let rec after_v2l = function "v2l" :: r -> List.map int_of_string r | _ :: r -> after_v2l r | [] -> [] in
                 let v2l = Array.of_list (after_v2l rt) in
                 let n = Array.length v2l in
+                let kvi k = List.find_map (fun t -> match String.split_on_char '=' t with
+                    | [ k'; v ] when k' = k -> int_of_string_opt v | _ -> None) rt in
                 if not (List.mem "evals_ok=1" rt) then
                   fail i "C08" "prop" "set_var_order (concurrent bubble sort) changed the function of a live handle (sampled evaluations differ)"
+                else if List.mem "rebuilt=0" rt then
+                  fail i "C08" "prop" "after set_var_order (concurrent bubble sort) the construction of the same function arrives at a different handle than the live one (canonicity lost: nodes are not where their level says)"
+                else if (match kvi "inner_after_gc", kvi "nodes_after" with
+                    | Some a, Some b -> a <> b - (if kname = "bcdd" then 1 else 2) | _ -> false) then
+                  fail i "C08" "prop" (Printf.sprintf "after set_var_order and a collection the manager stores %d inner nodes, the only live handle has %d nodes (incl. terminals)"
+                                         (Option.get (kvi "inner_after_gc")) (Option.get (kvi "nodes_after")))
                 else if n = 0 || List.exists (fun v -> v >= n) req then fail i "C08" "corr" ("cannot read: " ^ l)
                 else (
                   let rec sorted = function a :: (b :: _ as r) -> v2l.(a) < v2l.(b) && sorted r | _ -> true in
